@@ -674,6 +674,7 @@ int vrt_pthread_create(pthread_t *tid, const pthread_attr_t *attr, void *(*fn)(v
 		return EAGAIN;
 	}
 	snprintf(nmb, sizeof nmb, "h%d", ++nhelpers);
+	if (self >= 0) drain(self);	/* clone() is a system call: the creator's buffered stores are visible to the new thread */
 	int id = spawn_common(nmb, fn, arg, 1); *tid = T[id].tid;
 	if (trace) { fprintf(trace, "{\"t\":\"%s\",\"op\":\"spawn\",\"var\":\"%s\"}\n", tn(self), nmb); trace_check(); }
 	return 0;
